@@ -14,7 +14,7 @@ use crate::node::*;
 use crate::report::{par_map, workers, Report, Tier};
 use crate::seams::{key, Cfg};
 
-fn base_block(n: usize, with_gt: bool) -> Result<(World, usize), String> {
+pub fn base_block(n: usize, with_gt: bool) -> Result<(World, usize), String> {
     let mut w = World::new(Cfg::new(20, HEARTBEAT));
     let k1 = key(1);
     let mut iss: Vec<(SaitoPublicKey, u64)> = (0..14).map(|i| (k1.public, 1_000_000 + i as u64)).collect();
@@ -110,6 +110,18 @@ pub fn main(tier: Tier, _replay: Option<String>) -> i32 {
                     if !lite.transactions.iter().any(|x| x.serialize_for_net() == bytes) {
                         r.violate("listed-transaction-missing", format!("n={} {}: a transaction touching a listed key is not carried in full", n, label), ctx.clone());
                     }
+                }
+            }
+            // (b'') the flag a full node puts into the chain summary it sends the light client
+            // (the client only asks for the lite blocks so flagged): true exactly when the lite
+            // block for this key list carries a transaction
+            {
+                let touched = full.transactions.iter().any(|t| t.from.iter().any(|s| kl.contains(&s.public_key)) || t.to.iter().any(|s| kl.contains(&s.public_key)));
+                let flag = full.has_keylist_txs(&kl);
+                if flag != touched {
+                    r.violate(if touched { "listed-transaction-not-flagged-for-the-light-client" } else { "block-flagged-without-a-listed-transaction" }, format!("n={} {}: has_keylist_txs = {} but a transaction touching the key list {}", n, label, flag, if touched { "exists" } else { "does not exist" }), ctx.clone());
+                } else {
+                    r.outcome(if flag { "flag:block-has-listed-transactions" } else { "flag:nothing-for-this-key-list" });
                 }
             }
             // (b') positional projection: expanding placeholders by their weight, the lite block's
